@@ -14,7 +14,16 @@ type c18Backend struct {
 	ID       string   `json:"id"`
 	EndUser  string   `json:"end_user"`
 	Prefixes []string `json:"prefixes"`
-	Seen     string   `json:"seen"`
+	Seen     string   `json:"seen"`             // last poll of its agent
+	Active   string   `json:"active,omitempty"` // last response posted for it (never decides liveness)
+	Rereg    bool     `json:"rereg,omitempty"`  // had an earlier life under the same ID (polled, answered, deleted); Seen is "never"
+}
+
+type c18Hist struct {
+	U   int    `json:"u"`
+	P   int    `json:"p"`
+	B   string `json:"b"`
+	Mut string `json:"mut"`
 }
 
 type c18Config struct {
@@ -22,12 +31,14 @@ type c18Config struct {
 	Backends []c18Backend `json:"backends"`
 	Orders   [][]int      `json:"orders"`
 	HTTP     bool         `json:"http,omitempty"`
+	Hist     []c18Hist    `json:"hist,omitempty"`
 }
 
 var (
 	c18Prefixes = []string{"/", "/a", "/a/", "/a/b", "/ab", "/b", ""}
 	c18EndUsers = []string{"u1@example.com", "u2@example.com", "allUsers"}
 	c18Seen     = []string{"fresh", "4m", "6m", "1h", "never"}
+	c18Active   = []string{"", "fresh", "4m", "6m"}
 	c18Users    = []string{"u1@example.com", "u2@example.com", "u3@example.com"}
 	c18Paths    = []string{"/", "/a", "/a/", "/a/b/c", "/ab", "/b", "/c", ""}
 )
@@ -92,6 +103,12 @@ func c18Expect(cfg *c18Config, user, path string) (allowed map[string]bool, allo
 	} else if nLive < nL {
 		liveness = "some-live"
 	}
+	recentAnswer := false // a member of the longest class is not live by its polls, yet a response was posted for it recently
+	for _, b := range cands {
+		if c18Match(b, path) == max && !c18Live(b.Seen) && (b.Active == "fresh" || b.Active == "4m") {
+			recentAnswer = true
+		}
+	}
 	sharedToo := false
 	if src == "user" {
 		for i := range cfg.Backends {
@@ -104,7 +121,7 @@ func c18Expect(cfg *c18Config, user, path string) (allowed map[string]bool, allo
 	if nl > 2 {
 		nl = 2
 	}
-	class = fmt.Sprintf("n%d|%s|cands%d|len%d|tie%d|%s|sharedLonger:%v", len(cfg.Backends), src, min(len(cands), 3), max, nl, liveness, sharedToo)
+	class = fmt.Sprintf("n%d|%s|cands%d|len%d|tie%d|%s|sharedLonger:%v|notPolledButAnswered:%v", len(cfg.Backends), src, min(len(cands), 3), max, nl, liveness, sharedToo, recentAnswer)
 	return allowed, allow404, class
 }
 
@@ -151,9 +168,31 @@ func c18Why(cfg *c18Config, user, path, got string) string {
 		return "wrong-backend:shorter-prefix-chosen"
 	}
 	if !c18Live(b.Seen) {
+		if b.Active == "fresh" || b.Active == "4m" {
+			return "wrong-backend:not-live-chosen:response-posted-recently"
+		}
 		return "wrong-backend:not-live-chosen"
 	}
 	return "wrong-backend:other"
+}
+
+// c18After is the configuration a history's mutation leaves behind.
+func c18After(cfg *c18Config, h c18Hist) *c18Config {
+	out := &c18Config{I: cfg.I}
+	for _, b := range cfg.Backends {
+		if b.ID == h.B {
+			switch h.Mut {
+			case "delete":
+				continue
+			case "age":
+				b.Seen = "6m"
+			case "reregister":
+				b.EndUser, b.Seen = "someone-else@example.com", "never"
+			}
+		}
+		out.Backends = append(out.Backends, b)
+	}
+	return out
 }
 
 func c18Perms(n int) [][]int {
@@ -219,8 +258,12 @@ func c18Generate(r *core.Run) []c18Config {
 	for _, eu := range c18EndUsers {
 		for _, p := range c18Prefixes {
 			for _, s := range c18Seen {
-				add([]c18Backend{{EndUser: eu, Prefixes: []string{p}, Seen: s}}, 1)
+				for _, a := range c18Active { // last poll x last posted response, exhaustive
+					add([]c18Backend{{EndUser: eu, Prefixes: []string{p}, Seen: s, Active: a}}, 1)
+				}
 			}
+			// registered, polled, answered, deleted, registered again: never polled in its present life
+			add([]c18Backend{{EndUser: eu, Prefixes: []string{p}, Seen: "never", Active: "fresh", Rereg: true}}, 1)
 		}
 	}
 	// two backends, single prefix each: exhaustive over end users x prefixes, liveness exhaustive in thorough
@@ -237,7 +280,14 @@ func c18Generate(r *core.Run) []c18Config {
 							if quick && rng.Intn(3) != 0 {
 								continue
 							}
-							add([]c18Backend{{EndUser: eu1, Prefixes: []string{p1}, Seen: s1}, {EndUser: eu2, Prefixes: []string{p2}, Seen: s2}}, 2)
+							a1, a2 := "", ""
+							if rng.Intn(3) == 0 {
+								a1 = c18Active[rng.Intn(len(c18Active))]
+							}
+							if rng.Intn(3) == 0 {
+								a2 = c18Active[rng.Intn(len(c18Active))]
+							}
+							add([]c18Backend{{EndUser: eu1, Prefixes: []string{p1}, Seen: s1, Active: a1}, {EndUser: eu2, Prefixes: []string{p2}, Seen: s2, Active: a2}}, 2)
 						}
 					}
 				}
@@ -257,6 +307,12 @@ func c18Generate(r *core.Run) []c18Config {
 			if rng.Intn(3) == 0 {
 				bs[i].Seen = "fresh" // keep enough live backends for ties among live ones
 			}
+			if rng.Intn(2) == 0 {
+				bs[i].Active = c18Active[rng.Intn(len(c18Active))]
+			}
+			if rng.Intn(12) == 0 {
+				bs[i].Seen, bs[i].Active, bs[i].Rereg = "never", "fresh", true
+			}
 		}
 		add(bs, r.Pick(6, 24))
 	}
@@ -265,19 +321,48 @@ func c18Generate(r *core.Run) []c18Config {
 	for _, i := range rng.Perm(len(cfgs))[:nHTTP] {
 		cfgs[i].HTTP = true
 	}
+	// three-step histories through the client handler: a cacheable GET is answered by the one admissible backend,
+	// then that backend is deleted / its agent's last poll ages past the window / it is registered for another
+	// end user, then the same user GETs the same URL again
+	nHist := r.Pick(24, 300)
+	muts := []string{"delete", "age", "reregister"}
+	for _, i := range rng.Perm(len(cfgs)) {
+		if nHist == 0 {
+			break
+		}
+		cfg := &cfgs[i]
+		ui, pi := rng.Intn(len(c18Users)), rng.Intn(len(c18Paths))
+		if c18Paths[pi] == "" {
+			continue
+		}
+		allowed, allow404, _ := c18Expect(cfg, c18Users[ui], c18Paths[pi])
+		if allow404 || len(allowed) != 1 {
+			continue
+		}
+		b := keysOf(allowed)[0]
+		fresh := false
+		for _, cb := range cfg.Backends {
+			fresh = fresh || (cb.ID == b && cb.Seen == "fresh")
+		}
+		if !fresh {
+			continue // the harness polls as the backend's agent during the history: only where that changes nothing
+		}
+		cfg.Hist = append(cfg.Hist, c18Hist{U: ui, P: pi, B: b, Mut: muts[nHist%3]})
+		nHist--
+	}
 	return cfgs
 }
 
 // C18 — routing to the most specific live backend.
 func C18(r *core.Run) {
-	r.SetRule("bounded-exhaustive comparison of LookupBackend (real caching+persistent store over a fake datastore/memcache) with an independent longest-prefix specification: 1-4 backends, prefix lists (1-3, duplicates) over {/, /a, /a/, /a/b, /ab, /b, \"\"}, endUser in {u1,u2,allUsers}, last seen in {fresh,4m,6m,1h,never}, users {u1,u2,u3} x 8 paths, every/many insertion orders, each lookup repeated; sample through the client HTTP handler; class = (#backends, candidate source user/shared/none, #candidates, longest match length, tie size, liveness of the longest class, more specific shared backend present)")
-	r.Assume("ties and a non-live member of the longest-prefix class admit 404 or any live member; liveness margins are >= 60 s from the 5-minute boundary; 'never seen' is the state right after registration; last-seen ages are produced by ageing the time-valued properties written when the backend's pending list is read")
+	r.SetRule("bounded-exhaustive comparison of LookupBackend (real caching+persistent store over a fake datastore/memcache) with an independent longest-prefix specification: 1-4 backends, prefix lists (1-3, duplicates) over {/, /a, /a/, /a/b, /ab, /b, \"\"}, endUser in {u1,u2,allUsers}, last poll in {fresh,4m,6m,1h,never} x last posted response in {none,fresh,4m,6m} (dated independently; posted through the real store), backends with an earlier life under the same ID (registered, polled, answered, deleted, registered again = never polled), users {u1,u2,u3} x 8 paths, every/many insertion orders, each lookup repeated; sample through the client HTTP handler, including three-step histories (a cacheable GET answered by the one admissible backend; that backend deleted / its last poll aged past the window / registered for another end user; the same GET again); class = (#backends, candidate source user/shared/none, #candidates, longest match length, tie size, liveness of the longest class, more specific shared backend present)")
+	r.Assume("ties and a non-live member of the longest-prefix class admit 404 or any live member; liveness margins are >= 60 s from the 5-minute boundary; 'never seen' is the state right after registration; a backend is live iff its agent listed pending requests within the window - a posted response never counts; a request answered without being queued for any backend (GET cache replay) is admissible only where some backend is admissible for that user and path; last-seen ages are produced by ageing the time-valued properties written when the backend's pending list is read")
 	bin := r.MustBuild(e3Build(r))
 	cfgs := c18Generate(r)
 	spec := map[string]interface{}{"mode": "c18", "workers": 16, "users": c18Users, "paths": c18Paths, "reps": 2, "configs": cfgs}
 	res := e3Run(r, bin, "c18", spec, time.Duration(r.Pick(240, 1500))*time.Second)
 	seenCfg := 0
-	orders, lookups, httpCases, routed := 0, 0, 0, 0
+	orders, lookups, httpCases, routed, histCases, hist404 := 0, 0, 0, 0, 0, 0
 	for _, ln := range res.Lines {
 		var rec struct {
 			Cfg        int                      `json:"cfg"`
@@ -286,7 +371,19 @@ func C18(r *core.Run) {
 			Evals      int                      `json:"evals"`
 			OrderDiffs []map[string]interface{} `json:"order_diffs"`
 			RepDiffs   []map[string]interface{} `json:"rep_diffs"`
-			HTTP       []struct {
+			Hist       []struct {
+				U, P        int
+				B, Mut      string
+				SetupErr    string   `json:"setup_err"`
+				ListedFirst bool     `json:"listed_first"`
+				FirstStatus int      `json:"first_status"`
+				FirstBodyOK bool     `json:"first_body_ok"`
+				Status      int      `json:"status"`
+				ListedIn    []string `json:"listed_in"`
+				Hung        bool     `json:"hung"`
+				ReplayedOld bool     `json:"replayed_first_answer"`
+			} `json:"hist"`
+			HTTP []struct {
 				U, P     int
 				Status   int
 				ListedIn []string `json:"listed_in"`
@@ -328,6 +425,54 @@ func C18(r *core.Run) {
 		for _, d := range rec.RepDiffs {
 			r.Violate("C18:unstable-on-repetition", fmt.Sprintf("the same lookup answered differently when repeated: %v", d), map[string]interface{}{"config": cfg}, d)
 		}
+		for _, h := range rec.Hist {
+			hs := c18Hist{U: h.U, P: h.P, B: h.B, Mut: h.Mut}
+			u, p := c18Users[h.U], c18Paths[h.P]
+			cs := map[string]interface{}{"config": cfg, "user": u, "path": p, "history": fmt.Sprintf("GET answered by %s (cacheable 200); then %s of %s; then the same GET again", h.B, h.Mut, h.B)}
+			switch {
+			case h.SetupErr != "":
+				r.Broken(fmt.Sprintf("C18 history (config %d): %s", rec.Cfg, h.SetupErr))
+				continue
+			case h.FirstStatus != 200 || !h.FirstBodyOK:
+				// the first step is an ordinary routed request; it is judged like the HTTP sample
+				r.Violate("C18:http-history-first-request-not-served", fmt.Sprintf("user %s path %q: the only admissible backend %s is live and answered (listed: %v), the client got %d", u, p, h.B, h.ListedFirst, h.FirstStatus), cs, h)
+				continue
+			}
+			after := c18After(cfg, hs)
+			allowed, allow404, class := c18Expect(after, u, p)
+			histCases++
+			r.Case("http-history|" + h.Mut + "|" + class)
+			if len(allowed) == 0 {
+				hist404++
+			}
+			if histCases <= 2 {
+				r.Sample(map[string]interface{}{"history": cs, "first_status": h.FirstStatus, "last_status": h.Status, "last_queued_for": h.ListedIn, "admissible_after": keysOf(allowed)})
+			}
+			switch {
+			case h.Hung:
+				r.Violate("C18:http-handler-hangs", "client handler did not return", cs, h)
+			case len(h.ListedIn) == 0 && h.Status == 404:
+				if !allow404 {
+					r.Violate("C18:http-"+c18Why(after, u, p, "!"), fmt.Sprintf("user %s path %q after %s of %s: client got 404; admissible backends: %v", u, p, h.Mut, h.B, keysOf(allowed)), cs, h)
+				}
+			case len(h.ListedIn) == 0:
+				// answered without being queued for any backend: only a replay of the GET cache can do that, and the
+				// cache may only stand in for a backend the request could have been routed to
+				if len(allowed) == 0 {
+					sig := "C18:http-unrouted-not-404"
+					if h.Status == 200 && h.ReplayedOld {
+						sig = "C18:http-served-from-cache-without-live-backend:" + h.Mut
+					}
+					r.Violate(sig, fmt.Sprintf("user %s path %q: after %s of %s no live backend is registered for this user and path, yet the client got %d (replay of the earlier answer: %v) instead of 404", u, p, h.Mut, h.B, h.Status, h.ReplayedOld), cs, h)
+				}
+			default:
+				for _, b := range h.ListedIn {
+					if !allowed[b] {
+						r.Violate("C18:http-"+c18Why(after, u, p, b), fmt.Sprintf("user %s path %q after %s of %s: request queued for %q; admissible: %v, 404 admissible: %v", u, p, h.Mut, h.B, b, keysOf(allowed), allow404), cs, h)
+					}
+				}
+			}
+		}
 		for _, h := range rec.HTTP {
 			if h.SetupErr != "" {
 				r.Broken("C18 HTTP sample: " + h.SetupErr)
@@ -363,6 +508,8 @@ func C18(r *core.Run) {
 			}
 		}
 	}
+	r.Set("http_histories", histCases)
+	r.Set("http_histories_expecting_404", hist404)
 	if seenCfg != len(cfgs) && res.SawEnd {
 		r.Broken(fmt.Sprintf("C18: %d of %d configurations reported", seenCfg, len(cfgs)))
 	}
